@@ -13,29 +13,29 @@ import (
 )
 
 // fuzz constructors / values (top-level: no shared code pointers)
-func fzVoid()                                  {}
-func fzErrOnly() error                         { return nil }
-func fzIntParam(i int) *pool.K0                { return &pool.K0{} }
-func fzVariadic(xs ...*pool.K1) *pool.K0       { return &pool.K0{} }
-func fzChanRet() chan int                      { return nil }
-func fzChanParam(c chan int) *pool.K0          { return &pool.K0{} }
-func fzTwoErr() (error, error)                 { return nil, nil }
-func fzErrFirst() (error, *pool.K0)            { return nil, nil }
-func fzThree() (*pool.K0, *pool.K1, int)       { return nil, nil, 0 }
-func fzMapRet() map[string]int                 { return map[string]int{} }
-func fzSliceRet() []*pool.K0                   { return nil }
-func fzFuncRet() func()                        { return func() {} }
-func fzIfaceRet() any                          { return 1 }
-func fzInPtr(in *fzIn) *pool.K0                { return &pool.K0{} }
-func fzInBadGroup(in fzInBad) *pool.K0         { return &pool.K0{} }
-func fzOutEmpty() fzOutE                       { return fzOutE{} }
-func fzOutPtr() *fzOutP                        { return nil }
-func fzTwoIn(a fzIn, b fzIn) *pool.K0          { return &pool.K0{} }
-func fzStructRet() fzPlain                     { return fzPlain{} }
-func fzUnsafe(p uintptr) *pool.K0              { return &pool.K0{} }
-func fzK0() *pool.K0                           { return &pool.K0{} }
-func fzK0b() *pool.K0                          { return &pool.K0{} }
-func fzNeedsK1(k *pool.K1) *pool.K2            { return &pool.K2{} }
+func fzVoid()                            {}
+func fzErrOnly() error                   { return nil }
+func fzIntParam(i int) *pool.K0          { return &pool.K0{} }
+func fzVariadic(xs ...*pool.K1) *pool.K0 { return &pool.K0{} }
+func fzChanRet() chan int                { return nil }
+func fzChanParam(c chan int) *pool.K0    { return &pool.K0{} }
+func fzTwoErr() (error, error)           { return nil, nil }
+func fzErrFirst() (error, *pool.K0)      { return nil, &pool.K0{} }
+func fzThree() (*pool.K0, *pool.K1, int) { return &pool.K0{}, &pool.K1{}, 0 }
+func fzMapRet() map[string]int           { return map[string]int{} }
+func fzSliceRet() []*pool.K0             { return []*pool.K0{} }
+func fzFuncRet() func()                  { return func() {} }
+func fzIfaceRet() any                    { return 1 }
+func fzInPtr(in *fzIn) *pool.K0          { return &pool.K0{} }
+func fzInBadGroup(in fzInBad) *pool.K0   { return &pool.K0{} }
+func fzOutEmpty() fzOutE                 { return fzOutE{} }
+func fzOutPtr() *fzOutP                  { return nil }
+func fzTwoIn(a fzIn, b fzIn) *pool.K0    { return &pool.K0{} }
+func fzStructRet() fzPlain               { return fzPlain{} }
+func fzUnsafe(p uintptr) *pool.K0        { return &pool.K0{} }
+func fzK0() *pool.K0                     { return &pool.K0{} }
+func fzK0b() *pool.K0                    { return &pool.K0{} }
+func fzNeedsK1(k *pool.K1) *pool.K2      { return &pool.K2{} }
 
 type fzIn struct {
 	godi.In
@@ -188,17 +188,35 @@ func runC15Fuzz(c *eng.Ctx, cr *caseRunner) {
 	for _, kk := range keys {
 		kk := kk
 		calls = append(calls,
-			call{"GetKeyed(key=" + kk.name + ")", func(_ godi.Collection, p godi.Provider, sc godi.Scope) { _, _ = sc.GetKeyed(k0, kk.k); _, _ = p.GetKeyed(k0, kk.k) }},
-			call{"ContainsKeyed/RemoveKeyed(key=" + kk.name + ")", func(coll godi.Collection, _ godi.Provider, _ godi.Scope) { _ = coll.ContainsKeyed(k0, kk.k); coll.RemoveKeyed(k0, kk.k) }},
+			call{"GetKeyed(key=" + kk.name + ")", func(_ godi.Collection, p godi.Provider, sc godi.Scope) {
+				_, _ = sc.GetKeyed(k0, kk.k)
+				_, _ = p.GetKeyed(k0, kk.k)
+			}},
+			call{"ContainsKeyed/RemoveKeyed(key=" + kk.name + ")", func(coll godi.Collection, _ godi.Provider, _ godi.Scope) {
+				_ = coll.ContainsKeyed(k0, kk.k)
+				coll.RemoveKeyed(k0, kk.k)
+			}},
 			call{"ResolveKeyed(key=" + kk.name + ")", func(_ godi.Collection, p godi.Provider, sc godi.Scope) { _, _ = godi.ResolveKeyed[*pool.K0](sc, kk.k) }},
-			call{"RemoveKeyed-module(key=" + kk.name + ")", func(coll godi.Collection, _ godi.Provider, _ godi.Scope) { _ = coll.AddModules(godi.RemoveKeyed[*pool.K0](kk.k)) }},
+			call{"RemoveKeyed-module(key=" + kk.name + ")", func(coll godi.Collection, _ godi.Provider, _ godi.Scope) {
+				_ = coll.AddModules(godi.RemoveKeyed[*pool.K0](kk.k))
+			}},
 		)
 	}
 	calls = append(calls,
 		call{"Get(nil)", func(_ godi.Collection, p godi.Provider, sc godi.Scope) { _, _ = sc.Get(nil); _, _ = p.Get(nil) }},
-		call{"GetKeyed(nil,nil)", func(_ godi.Collection, p godi.Provider, sc godi.Scope) { _, _ = sc.GetKeyed(nil, nil); _, _ = p.GetKeyed(nil, "k") }},
-		call{"GetGroup(nil,'')", func(_ godi.Collection, p godi.Provider, sc godi.Scope) { _, _ = sc.GetGroup(nil, ""); _, _ = p.GetGroup(k0, ""); _, _ = sc.GetGroup(k0, "nope") }},
-		call{"Get(unregistered)", func(_ godi.Collection, p godi.Provider, sc godi.Scope) { _, _ = sc.Get(reflect.TypeOf(0)); _, _ = p.Get(reflect.TypeOf((*error)(nil)).Elem()) }},
+		call{"GetKeyed(nil,nil)", func(_ godi.Collection, p godi.Provider, sc godi.Scope) {
+			_, _ = sc.GetKeyed(nil, nil)
+			_, _ = p.GetKeyed(nil, "k")
+		}},
+		call{"GetGroup(nil,'')", func(_ godi.Collection, p godi.Provider, sc godi.Scope) {
+			_, _ = sc.GetGroup(nil, "")
+			_, _ = p.GetGroup(k0, "")
+			_, _ = sc.GetGroup(k0, "nope")
+		}},
+		call{"Get(unregistered)", func(_ godi.Collection, p godi.Provider, sc godi.Scope) {
+			_, _ = sc.Get(reflect.TypeOf(0))
+			_, _ = p.Get(reflect.TypeOf((*error)(nil)).Elem())
+		}},
 		call{"CreateScope(nil)", func(_ godi.Collection, p godi.Provider, sc godi.Scope) {
 			if s2, err := sc.CreateScope(nil); err == nil {
 				_ = s2.Close()
